@@ -85,11 +85,23 @@ pub fn after_alloc(
                 format!("alloc(size {}) with at_safepoint=false called block_for_gc {} times", size, blocked),
             );
         }
-        // (allow_overcommit lets an allocation proceed although a GC was triggered; when the page
-        // resource itself fails -- e.g. the space's virtual memory is exhausted -- blocking for
-        // a GC is still legitimate, so blocking alone is only counted, not flagged.)
+        // allow_overcommit lets an allocation proceed although a GC was triggered.  When the page
+        // resource itself fails (the space's virtual memory is exhausted, mmap fails) blocking for
+        // a GC is still legitimate: only a block that was not preceded by such a failure counts.
         if o.allow_overcommit && blocked > 0 {
             w.count("overcommit_alloc_blocked");
+            let tid = crate::simrt::current_tid();
+            let pr_failed = w.acquire_fails.get(&tid).cloned().unwrap_or((0, 0)).1;
+            if pr_failed == 0 {
+                violation(
+                    "C10",
+                    "overcommit-blocked",
+                    format!(
+                        "alloc(size {}) with allow_overcommit=true called block_for_gc {} times although the page resource never failed",
+                        size, blocked
+                    ),
+                );
+            }
         }
         if opts.is_some() {
             w.count(&format!(
@@ -110,6 +122,7 @@ pub fn at_resume(w: &mut World, found: &BTreeMap<u64, usize>, info: GcInfo) {
     let total = mm::total_bytes(mmtk());
     w.used_after_gc.push((w.pause.n, used, total));
     check_heap_size(w, total, "after a GC");
+    crate::oracle2::at_resume(w, found, info, used);
     let full_stw = w.plan.collects && info.nursery != Some(true) && matches!(info.pause, 0 | 1);
     if w.probe_requested || w.end_phase {
         if full_stw {
